@@ -31,6 +31,7 @@ struct Thr {
   int64_t deadline = 0;
   bool timed_out = false;
   bool spurious = false;
+  bool eintr = false; // the spurious return is reported as -1/EINTR (signal) instead of 0
   uint8_t pending = 0; // kind of the operation announced at the current schedule point
   int join_target = -1;
   void* mtx = nullptr;
@@ -300,6 +301,7 @@ void reschedule(Thr* me) {
         t.st = RUNNABLE;
         t.has_deadline = false;
         t.spurious = true;
+        t.eintr = (rnd() & 1) != 0;
         emit("{\"k\":\"spur\",\"wakes\":%d,\"now_us\":%lld}", t.id, (long long)(G.vclock / 1000));
         continue;
       }
@@ -597,8 +599,14 @@ int futex_wait(uint32_t* addr, uint32_t val, const struct timespec* to) noexcept
   me->waddr = nullptr;
   count_step();
   bool spur = me->spurious;
+  bool eintr = spur && me->eintr;
   me->spurious = false;
-  emit("{\"k\":\"fret\",\"t\":%d,%s,\"res\":\"%s\"}", me->id, loc.c_str(), timed_out ? "timeout" : spur ? "spurious" : "woken");
+  me->eintr = false;
+  emit("{\"k\":\"fret\",\"t\":%d,%s,\"res\":\"%s\"}", me->id, loc.c_str(), timed_out ? "timeout" : eintr ? "eintr" : spur ? "spurious" : "woken");
+  if (eintr) {
+    errno = EINTR;
+    return -1;
+  }
   if (timed_out) {
     errno = ETIMEDOUT;
     return -1;
